@@ -71,6 +71,53 @@ class PqueueGen:
     def random(self, rng, n, tier, focus=None):
         return mix_sparse(self._random(rng, n, tier, focus), rng)
 
+    def scale(self, rng, tier):
+        """few LONG histories: >= 1100 elements pushed in ascending / descending / random order with ties
+        and NULL elements, interleaved pops, then a full drain (heaps of 11 levels: a sift-down that is
+        cut short after a few levels leaves a non-maximal root).  Sparse observation and checksummed
+        buffer (`phys=quiet`), an `observe` every few hundred operations."""
+        out = []
+        shapes = [("ascending", 1, "1.5", "num"), ("descending", 8, "2", "num"), ("random", 7, "3", "mod"),
+                  ("random", 257, "1.01", "diff"), ("mixed", 1024, "2", "num"), ("ascending", 300, "1.5", "mod")]
+        if tier != "quick":
+            shapes = shapes * 4
+        else:
+            shapes = shapes[:4] + [rng.choice(shapes[4:])]
+        for k, (shape, cap, exp, mode) in enumerate(shapes):
+            n = rng.randint(1100, 1400)
+            ops = [f"new cap={cap} exp={exp} cmp={mode} obs=sparse phys=quiet"]
+            vals = []
+            for i in range(n):
+                if shape == "ascending":
+                    v = 3 * i + rng.randint(0, 2)
+                elif shape == "descending":
+                    v = 3 * (n - i) + rng.randint(0, 2)
+                else:
+                    v = pick_value(rng, mode) if rng.random() < 0.3 else rng.randint(0, 5000)
+                if rng.random() < 0.01:
+                    v = 0                       # NULL element
+                vals.append(v)
+            held = 0
+            for i, v in enumerate(vals):
+                ops.append(f"push {v}")
+                held += 1
+                if shape == "mixed" and rng.random() < 0.25 and held:
+                    ops.append("pop null=1" if rng.random() < 0.1 else "pop")
+                    held -= 1
+                if i % 400 == 399:
+                    ops.append("observe")
+            ops.append("top")
+            ops.append("observe")
+            # full drain, and one pop more
+            for i in range(held + 1):
+                ops.append("pop null=1" if rng.random() < 0.03 else "pop")
+                if i % 500 == 250:
+                    ops.append("observe")
+            ops.append("observe")
+            ops.append("destroy")
+            out.append(ops)
+        return out
+
     def _small_scope(self, tier, focus=None):
         out = []
         maxlen = 6 if tier == "quick" else 8
